@@ -15,7 +15,7 @@ Proof. vm_compute. reflexivity. Qed.
 Theorem C14_fresh_equiv : forall ops i s,
   nth_error (sims (run gen_table ops w0)) i = Some s ->
   let w := run gen_table ops w0 in
-  observe gen_table (par w) (meshes w) s = observe gen_table (par w) (pristine (meshes w)) (fresh_sim s).
+  observe gen_table (par w) (mcache w) (meshes w) s = observe gen_table (par w) None (pristine (meshes w)) (fresh_sim s).
 Proof. exact (fresh_equiv gen_table C14_table_ok). Qed.
 Print Assumptions C14_fresh_equiv.
 
@@ -30,8 +30,8 @@ Theorem C14_shared_model : forall ops sub i s,
 Proof. exact (shared_model gen_table C14_table_ok). Qed.
 Print Assumptions C14_shared_model.
 
-Theorem C14_staggered_flags : forall p ms v1 v2 s, kd s = KPF ->
-  let s' := solve_sim gen_table p ms v1 v2 s in
+Theorem C14_staggered_flags : forall p mc ms v1 v2 s, kd s = KPF ->
+  let s' := solve_sim gen_table p mc ms v1 v2 s in
   updD (pf s') = false /\ updU (pf s') = true /\ option_map k_sol (kU (pf s')) = Some v1 /\
   solD (cf s') = v1 /\ solU (cf s') = v2.
 Proof. intros. apply staggered_flags; [exact C14_table_ok | assumption]. Qed.
